@@ -263,6 +263,38 @@ def inline_body(F, b, known, depth=0, stack=()):
         inline_body(F, tmp, known, depth + 1, stack)
         lo = len(b.locals)
         bo = len(b.blocks)
+        # generic parameters of the helper: unify each parameter type with the type of the actual argument
+        # (`&Data` against `&rdata::dnssec::Dnskey<bytes::Bytes>`), and rewrite the helper's local types and
+        # the type arguments of its calls, so that rules that read types see what the caller passes
+        subst = {}
+        for i, a in enumerate(t["args"]):
+            pty = tmp.locals[1 + i] if 1 + i < len(tmp.locals) else None
+            aty = b.locals[a[1][0]] if a[0] in ("c", "m") and len(a[1]) == 1 and a[1][0] < len(b.locals) else None
+            if not isinstance(pty, str) or not isinstance(aty, str):
+                continue
+            ps, as_ = pty, aty
+            while True:
+                m1 = re.match(r"^&(mut )?(.*)$", ps)
+                m2 = re.match(r"^&(mut )?(.*)$", as_)
+                if m1 and m2:
+                    ps, as_ = m1.group(2), m2.group(2)
+                    continue
+                break
+            if re.match(r"^[A-Z][A-Za-z0-9_]*$", ps) and ps != as_ and "::" in as_:
+                subst.setdefault(ps, as_)
+        def _sub(s):
+            if not subst or not isinstance(s, str):
+                return s
+            for g, actual in subst.items():
+                s = re.sub(r"(?<![A-Za-z0-9_:])%s(?![A-Za-z0-9_]|::)" % re.escape(g), lambda _m, _a=actual: _a, s)
+            return s
+        if subst:
+            tmp.locals[:] = [_sub(x) for x in tmp.locals]
+            for cblk in tmp.blocks:
+                ct = cblk["t"]
+                if ct.get("k") == "call" and ct.get("targs"):
+                    ct["targs"] = [_sub(x) for x in ct["targs"]]
+                    ct["gsubst"] = dict(subst)
         b.locals.extend(tmp.locals)
         for nme, pl in tmp.vars:
             b.vars.append([nme + "'", _place(pl, lo)])
